@@ -77,7 +77,7 @@ class FaceSpanningTree(SpanningTree):
         else:
             bary = face_barycenter(self.mesh)
         for iF in self.mesh.id_faces:
-            output.vertices.append(bary[iF])
+            output.vertices.append(bary[iF].copy())
             if self.parent[iF] is not None:
                 output.edges.append([iF, self.parent[iF]])
         return output
